@@ -93,7 +93,7 @@ package client
 //@ fn (*client).GetCurrentStatus(c, workflow) (st, err)
 //@   props C08 C16
 //@   nullable c
-//@   modifies heap(alloc), ghost sockq.calls, ghost sockq.err, ghost sockq.body, ghost sockq.method, ghost sockq.path, ghost obs.json_st, ghost obs.json_err
+//@   modifies heap(alloc), ghost sockq.calls, ghost sockq.err, ghost sockq.body, ghost sockq.method, ghost sockq.path, ghost obs.json_st, ghost obs.json_err, ghost obs.json_calls, ghost obs.json_ok, ghost obs.json_last_ok
 //@   ensures [C16 probe_asks_the_status_endpoint] sockq.calls == old(sockq.calls) + 1 && sockq.method == "GET" && sockq.path == "/status"
 //@   ensures [C08 live_answer_is_reported] sockq.err == nil ==> (st == obs.json_st && err == obs.json_err)
 //@   ensures [C08 silent_socket_means_not_running] sockq.err != nil && !err_is(sockq.err, sock.ErrTimeout) ==>
@@ -103,7 +103,7 @@ package client
 //@ fn (*client).currentStatus(c, workflow) (st, err)
 //@   props C08
 //@   nullable c
-//@   modifies heap(alloc), ghost sockq.calls, ghost sockq.err, ghost sockq.body, ghost sockq.method, ghost sockq.path, ghost obs.json_st, ghost obs.json_err
+//@   modifies heap(alloc), ghost sockq.calls, ghost sockq.err, ghost sockq.body, ghost sockq.method, ghost sockq.path, ghost obs.json_st, ghost obs.json_err, ghost obs.json_calls, ghost obs.json_ok, ghost obs.json_last_ok
 //@   ensures [C08 live_answer_is_reported] sockq.err == nil ==> (st == obs.json_st && err == obs.json_err)
 //@   ensures [C08 no_answer_no_live_status] sockq.err != nil ==> (st == nil && err != nil)
 //@   ensures sockq.calls == old(sockq.calls) + 1 && sockq.method == "GET" && sockq.path == "/status"
@@ -116,7 +116,7 @@ package client
 //@   props C08 C09 C20
 //@   requires c.dataStore != nil
 //@   modifies heap(alloc), heap(model.Status.Status), heap(model.Status.StatusText), ghost sockq.calls, ghost sockq.err, ghost sockq.body, ghost sockq.method, ghost sockq.path,
-//@            ghost obs.json_st, ghost obs.json_err, ghost obs.today_err, ghost obs.today
+//@            ghost obs.json_st, ghost obs.json_err, ghost obs.json_calls, ghost obs.json_ok, ghost obs.json_last_ok, ghost obs.today_err, ghost obs.today
 //@   ensures [C08 live_status_wins] sockq.err == nil && obs.json_st != nil ==> (st == obs.json_st && err == nil)
 //@   ensures [C08 persisted_status_is_never_running] !(sockq.err == nil && obs.json_st != nil) && err == nil ==> (st != nil && st.Status != scheduler.StatusRunning)
 //@   ensures [C08 persisted_status_is_what_was_recorded] !(sockq.err == nil && obs.json_st != nil) && obs.today_err == nil ==>
